@@ -52,6 +52,44 @@ def run(ctx):
     table(ctx, 'PETE-TABLE', 'AbstractCulture::index_of', [(i, n) for n in (1, 2, 3, 5, 7, 9, 10, 12, 28, 60) for i in range(-3 * n - 1, 3 * n + 2)], idxof, lambda x: x[0] % x[1],
           'index_of is the Euclidean remainder', str, fn_site(p, 'AbstractCulture::index_of'))
 
+    # ---- plain enums with by-code / by-name constructors (gender, polarity, side, festival kind, hidden-stem kind)
+    from pete import EV
+    enums = sorted(n for n in p.enums if p.find_method(n, 'from_name') is not None and all(not v.get('fields') for v in p.enums[n]['variants']))
+    ctx.floor('SIB-CYCLE', 'enums with a by-name constructor', len(enums), 5)
+    for en in enums:
+        def one_enum(en=en):
+            vs = [EV(en, v['name'] if isinstance(v, dict) else v) for v in p.enums[en]['variants']]
+            names = [py(I.method(v, 'get_name')) for v in vs]
+            if len(set(names)) != len(names):
+                return '%s: two variants share a name %s, so from_name(get_name(v)) cannot be v' % (en, names)
+            for v, nm in zip(vs, names):
+                r = I.call('%s::from_name' % en, [nm])
+                if not r.ok or r.v != v:
+                    return '%s::from_name(%s) is not the variant named so (%s)' % (en, nm, v.var)
+                if py(I.method(v, 'to_string')) != nm:
+                    return '%s: Display and get_name differ for %s' % (en, v.var)
+            if I.call('%s::from_name' % en, [u'不存在的名']).ok or I.call('%s::from_name' % en, [u'']).ok:
+                return '%s::from_name accepts an unknown name' % en
+            if p.find_method(en, 'from_code') is not None:
+                got = []
+                for k in range(len(vs)):
+                    r = I.call('%s::from_code' % en, [k])
+                    if not r.ok:
+                        return '%s::from_code(%d) refused though the enum has %d variants' % (en, k, len(vs))
+                    got.append(r.v.var)
+                if sorted(got) != sorted(v.var for v in vs):
+                    return '%s::from_code is not a bijection onto the variants: %s' % (en, got)
+                for k in (len(vs), len(vs) + 1, 99):
+                    if I.call('%s::from_code' % en, [k]).ok:
+                        return '%s::from_code accepts the unknown code %d' % (en, k)
+            # the hand-written equality must be identity of variants
+            for a in vs:
+                for b in vs:
+                    if bool(I.values_equal(a, b)) != (a.var == b.var):
+                        return '%s: %s == %s evaluates to %s' % (en, a.var, b.var, a.var != b.var)
+            return None
+        ctx.guard('SIB-CYCLE', 'SIB:enum:%s' % en, one_enum, len(p.enums[en]['variants']) * 4, {'enum': en})
+
     # ---- cycle types
     cyc = sorted(n for n, s in p.structs.items() if [f for f, ty in s['fields']] == ['parent'] and s['fields'][0][1].replace(' ', '') == 'LoopTyme')
     ctx.floor('SIB-CYCLE', 'cycle types (struct { parent: LoopTyme })', len(cyc), 42)
@@ -159,6 +197,27 @@ def run(ctx):
         return (py(t3.m(r, 'get_year')), py(t3.m(r, 'get_index')))
     table(ctx, 'CARRY', 'CARRY:SolarTerm::from_index', [(y, i) for y in (-1, 0, 1, 2023) for i in (-25, -24, -1, 0, 23, 24, 30, 47, 48)], term_ctor, lambda x: ((x[0] * 24 + x[1]) // 24, x[1] % 24),
           'constructing term (year, index) with an index outside 0..23 carries into the year by floor', str, fn_site(p, 'SolarTerm::from_index'))
+
+    # by-name construction of a term is the inverse of its name getter and lands on the same cursory day as by-index construction
+    from rules.c06 import TERMS
+
+    def term_by_name(x):
+        y, i = x
+        a = I3.call('SolarTerm::from_index', [y, i])
+        nm = t3.name(a)
+        b = I3.call('SolarTerm::from_name', [y, nm])
+        return (nm, py(t3.m(b, 'get_year')), py(t3.m(b, 'get_index')), t3.m(b, 'get_cursory_julian_day') == t3.m(a, 'get_cursory_julian_day'))
+    table(ctx, 'SIB-CYCLE', 'SolarTerm::from_name', [(y, i) for y in (0, 2023) for i in range(24)], term_by_name,
+          lambda x: (TERMS[x[1]], x[0], x[1], True),
+          'SolarTerm::from_name(year, name) is the term of that name: same year, index and cursory day as by-index construction', str, fn_site(p, 'SolarTerm::from_name'))
+
+    def term_bad_name():
+        try:
+            I3.call('SolarTerm::from_name', [2023, u'不存在的名'])
+        except Bottom:
+            return None
+        return 'SolarTerm::from_name accepts an unknown name'
+    ctx.guard('SIB-CYCLE', 'SolarTerm::from_name:unknown', term_bad_name, 1)
 
     # ---- lunar month / day / hour stepping on a scenario calendar with leap months
     Y = 2000
